@@ -36,11 +36,11 @@ ANCHORS = ['debian.arfile:ArFile.__collect_members', 'debian.arfile:ArMember.fro
            'debian.arfile:ArMember.tell', 'debian.arfile:ArFile.getmember']
 MUST_REACH = ANCHORS
 FLOORS = {'quick': {'nontrivial': 800, 'monitors': {'M.op': 30000, 'K9': 10000, 'M.listing': 1000},
-                    'counters': {'fileobj-kind:tempfile': 500, 'fileobj-kind:fdopen': 500, 'fileobj-kind:unlinked': 500, 'fileobj-kind:replaced': 500,
+                    'counters': {'fileobj-kind:tempfile': 450, 'fileobj-kind:rawio': 450, 'fileobj-kind:fdopen': 450, 'fileobj-kind:unlinked': 450, 'fileobj-kind:replaced': 450,
                                  'archive-object-dropped-before-reads': 2400, 'filename:members-dropped-unclosed': 1300,
                                  'filename:path_reuse': 1300, 'filename:twin': 650, 'op-through-twin': 4000}},
           'thorough': {'nontrivial': 40000, 'monitors': {'M.op': 1500000, 'K9': 500000, 'M.listing': 50000},
-                       'counters': {'fileobj-kind:tempfile': 50000, 'fileobj-kind:fdopen': 50000, 'fileobj-kind:unlinked': 50000, 'fileobj-kind:replaced': 50000,
+                       'counters': {'fileobj-kind:tempfile': 45000, 'fileobj-kind:rawio': 45000, 'fileobj-kind:fdopen': 45000, 'fileobj-kind:unlinked': 45000, 'fileobj-kind:replaced': 45000,
                                     'archive-object-dropped-before-reads': 120000, 'filename:members-dropped-unclosed': 65000,
                                     'filename:path_reuse': 65000, 'filename:twin': 32000, 'op-through-twin': 200000}}}
 LEVEL_TEXT = ('Runtime monitoring: seeded interleaved operation histories on live ArMember objects, each result compared with an '
@@ -142,7 +142,7 @@ def cases(ctx):
         # path rewritten with the next archive; a second ArFile on the same path read alternately with the first
         case['drop_ar'] = r.random() < .3
         if case['mode'] == 'fileobj':
-            case['fobj'] = r.choice(['bytesio', 'bytesio', 'bytesio', 'tempfile', 'fdopen', 'unlinked', 'replaced'])
+            case['fobj'] = r.choice(['bytesio', 'bytesio', 'bytesio', 'tempfile', 'fdopen', 'unlinked', 'replaced', 'rawio'])
         if case['mode'] == 'filename':
             case['path_reuse'] = r.random() < .5
             case['close'] = r.random() < .5
@@ -224,7 +224,10 @@ def run_case(ctx, case):
                 fpath = os.path.join(_DIR[0], 'fobj%d.ar' % ctx.evaluations)
                 with open(fpath, 'wb') as f:
                     f.write(raw)
-                if fk == 'fdopen':
+                if fk == 'rawio':
+                    under = open(fpath, 'rb', buffering=0)          # unbuffered FileIO
+                    os.unlink(fpath)
+                elif fk == 'fdopen':
                     under = os.fdopen(os.open(fpath, os.O_RDONLY), 'rb')
                     os.unlink(fpath)
                 else:
